@@ -4,7 +4,7 @@ PROPS[pid]["rules"] = [(rule id, floor of decided instances, selector over insta
 Floors are the numbers counted on the tree the rules were written against: a rule that suddenly
 matches fewer sites is a broken check (exit 2), never a silent pass.
 """
-from . import wf, dp, dt, he, gl, ts, ee, sl, wp, fs, ic, nb, im, rn, mp, sp, ms, cp, sh, st, rh, vo, wi, law, cn
+from . import wf, dp, dt, he, gl, ts, ee, sl, wp, fs, ic, nb, im, rn, mp, sp, ms, cp, sh, st, rh, vo, wi, law, cn, pr, dtr
 
 
 def has(*subs):
@@ -41,6 +41,8 @@ RULES = {
     "WI": {"run": wi.run},
     "LAW": {"run": law.run},
     "CN": {"run": cn.run},
+    "PR": {"run": pr.run},
+    "DTR": {"run": dtr.run},
 }
 
 BDD_T = ("BddNode", "BddPtr")
@@ -83,7 +85,7 @@ PROPS = {
         "level": "other",
         "rules": [("CP", 4, has("decision_nnf::")), ("TS", 7, has("TS-BAL")), ("DP", 3, has("topdown")),
                   ("GL", 1, has("component-cache")), ("SP", 10, has("SP1")),
-                  ("SH", 6, has("decision_nnf::"))],
+                  ("SH", 6, has("decision_nnf::")), ("RN", 7, has("RN4"))],
         "explanation": "Conditioning of a possibly complemented d-DNNF pointer is sign-coherent (CP on cond_helper: return "
                        "contract, node-constructor parity, comparison parity); decide/pop balance on every path of topdown_h "
                        "(TS-BAL: one pop after SAT/Unknown, none after UNSAT, none before the first decide); UNSAT and an "
@@ -172,7 +174,7 @@ PROPS = {
     },
     "C09": {
         "level": "other",
-        "rules": [("WP", 17, has("unit_prop")), ("TS", 5, has("TS-STK")), ("WI", 1, None)],
+        "rules": [("WP", 17, has("unit_prop")), ("TS", 5, has("TS-STK")), ("WI", 1, None), ("PR", 1, has("SATSolver"))],
         "explanation": "Every pos/neg watch-list / occurrence-table access in unit_prop.rs is selected by the polarity of "
                        "the same literal that indexes it, insertions go to the literal's own table, reads keyed by one "
                        "literal use one side (WP); SATSolver::decide pushes exactly one state on non-UNSAT paths and none on "
@@ -191,7 +193,7 @@ PROPS = {
     },
     "C14": {
         "level": "other",
-        "rules": [("IC", 13, hasnot("repr::cnf::Cnf::from_dimacs")), ("VO", 14, None)],
+        "rules": [("IC", 13, hasnot("repr::cnf::Cnf::from_dimacs")), ("VO", 14, None), ("DTR", 5, None)],
         "explanation": "Dimension analysis (Index / Count / OneBased): every function called num_vars returns a count, every "
                        "num_vars field is initialised with a count, label-indexed table sizes are counts (IC). Not decided: "
                        "permutation-ness of heuristic orders, dtree cutsets, LCA / in-order index arithmetic.",
@@ -199,7 +201,8 @@ PROPS = {
     "C15": {
         "level": "other",
         "rules": [("EE", 1, None), ("IC", 5, has("repr::cnf::")), ("WP", 2, has("repr::cnf::")),
-                  ("FS", 3, has("repr::cnf::", "assignment_weight")), ("CN", 2, None)],
+                  ("FS", 3, has("repr::cnf::", "assignment_weight")), ("CN", 2, None),
+                  ("PR", 1, has("CnfHasher"))],
         "explanation": "Brute-force counting leaves its enumeration loop only when the assignment iterator is exhausted (EE); "
                        "Cnf's variable count is max label + 1 (IC); the residual hasher's pos/neg tables are selected and "
                        "indexed by the same literal (WP); counting accumulators are seeded with zero/one (FS). Not decided: "
